@@ -9,7 +9,8 @@ theorem L_optDesc (d : Bytes) : L (.opt (.nt .description)) (printDesc d) := by
   unfold printDesc
   split
   · exact L.optNone
-  · exact L.optSome (L.nt (L.canon (L.tok (by simp))))
+  · rename_i hd
+    exact L.optSome (L.nt (L.canon (L.tok (by simp)) (by simp [canonDescription, hd])))
 
 theorem L_argDef (a : ArgDef) (h : WFArgDef a) : L (.nt .inputValueDefinition) (printArgDef a) := by
   have := L.nt (n := .inputValueDefinition) (L.seq (L_optDesc a.desc) (L.nameCons a.name (L.kindCons .colon
